@@ -12,6 +12,10 @@ RULE = (
     "set of conjuncts the *model* finds failing. distinct = (failed-conjunct set, versions delta class, |K|,t,|K'|,t', #entries); "
     "non-trivial = both documents are envelopes."
 )
+RULE_ADDENDUM = (
+    'Additional: forged neighbours re-using just-verified entries, failing-stdout twins (soundness only), concurrent chaining of different roots, the same pairs through verify-metadata in-process (status 0 iff the rule accepts).'
+)
+RULE = RULE + " " + RULE_ADDENDUM
 LIMITS = ["signatures are made by the reference OpenPGP-wrapped signer (GnuPG-made ones in C10)", "at most 5 root keys"]
 ASSUMPTIONS = ["reference models vf/refs/models.py:root_verdict, reference schema, reference ed25519/RFC 4880 digest"]
 
